@@ -6,7 +6,7 @@
 (***************************************************************************)
 EXTENDS PushRand
 
-HarnessInstr == {"VERIF.PROBE", "VERIF.SLEEP"}
+HarnessInstr == {"VERIF.PROBE", "VERIF.SLEEP", "VERIF.NOOP*WITH*A*NAME*LONGER*THAN*ANY*BUILTIN*INSTRUCTION"}
 Registry == StackOpNames \cup ScalarInstr \cup CodeFamily \cup VectorInstr \cup ListInstr \cup IOInstr
             \cup GraphInstr \cup RandInstr \cup {"NOOP"}
 KnownInstr == Registry \cup HarnessInstr
